@@ -1,4 +1,4 @@
-(* Dispatch of the extracted pool monitors (Mon_Cxx.v).  Output: OK | FAIL <index> <clause>. *)
+(* Dispatch of the extracted pool monitor (PMon.v).  Output: OK | FAIL <index> <clause>. *)
 open Common
 
 let run_monitor (pid : string) parse_cfg parse_label parse_obs (lines : string list) : unit =
@@ -9,5 +9,7 @@ let run_monitor (pid : string) parse_cfg parse_label parse_obs (lines : string l
       let obs = L.map (fun line ->
           let (ls, os) = split_line line in
           parse_obs (parse_label ls) os) rest in
-      ignore cfg; ignore obs; ignore pid;
-      print_endline "OK"
+      let n = int_of_string (S.sub pid 1 (S.length pid - 1)) in
+      match PMon.mon_run cfg (nat_of_int n) (PMon.trk_init cfg) Datatypes.O obs with
+      | None -> print_endline "OK"
+      | Some (i, cl) -> Printf.printf "FAIL %d %s\n" (int_of_nat i) (Pclauses.show_clause cl)
